@@ -6,6 +6,12 @@ import past
 import used
 
 PROP = "C10"
+
+
+def _R(a, P):
+    """the receiver of the call under test; the method is reached through one of its public aliases on a share of lines"""
+    return past.ViaAlias(P(pseq(a[0])), tuple(a))
+
 RULE = ("exhaustive: every permutation p with |p|<=N for every unary op; every argument (index, value, shift) in the "
         "stated integer window (valid, boundary, out-of-range and None); every pair/triple of short permutations for "
         "sums/compose; every component list (None / all perms of length <=2, some of length 3) for inflate with |p|<=3; "
@@ -155,9 +161,9 @@ def impl(op, a):
 
 def _impl(op, a, P):
     if op == "dsum":
-        return guarded(lambda: fseq(P(pseq(a[0])).direct_sum(*[P(q) for q in pseqs(a[1])])))
+        return guarded(lambda: fseq(_R(a, P).direct_sum(*[P(q) for q in pseqs(a[1])])))
     if op == "ssum":
-        return guarded(lambda: fseq(P(pseq(a[0])).skew_sum(*[P(q) for q in pseqs(a[1])])))
+        return guarded(lambda: fseq(_R(a, P).skew_sum(*[P(q) for q in pseqs(a[1])])))
     if op == "add":
         return guarded(lambda: fseq(P(pseq(a[0])) + P(pseq(a[1]))))
     if op == "sub":
@@ -172,11 +178,11 @@ def _impl(op, a, P):
             return fseq(p + other if k == "add" else p - other if k == "sub" else p * other)
         return guarded(f)
     if op == "compose":
-        return guarded(lambda: fseq(P(pseq(a[0])).compose(*[P(q) for q in pseqs(a[1])])))
+        return guarded(lambda: fseq(_R(a, P).compose(*[P(q) for q in pseqs(a[1])])))
     if op == "apply":
         def appl():
             arg = list(pseq(a[1])) if _HEAVY[0] else pseq(a[1])
-            out = fseq(P(pseq(a[0])).apply(arg))
+            out = fseq(_R(a, P).apply(arg))
             if _HEAVY[0]:
                 arg.clear()
             return out
@@ -184,55 +190,55 @@ def _impl(op, a, P):
     if op == "call":
         return guarded(lambda: str(P(pseq(a[0]))(int(a[1]))))
     if op == "insert":
-        return guarded(lambda: fseq(P(pseq(a[0])).insert(popt(a[1]), popt(a[2]))))
+        return guarded(lambda: fseq(_R(a, P).insert(popt(a[1]), popt(a[2]))))
     if op == "remove":
-        return guarded(lambda: fseq(P(pseq(a[0])).remove(popt(a[1]))))
+        return guarded(lambda: fseq(_R(a, P).remove(popt(a[1]))))
     if op == "remel":
-        return guarded(lambda: fseq(P(pseq(a[0])).remove_element(popt(a[1]))))
+        return guarded(lambda: fseq(_R(a, P).remove_element(popt(a[1]))))
     if op == "inflate":
         def infl():
             comps = [None if c is None else P(c) for c in pcomps(a[1])]
             if not _HEAVY[0]:
-                return fseq(P(pseq(a[0])).inflate(iter(comps)))
-            out = fseq(P(pseq(a[0])).inflate(comps))      # the list itself is passed and changed afterwards
+                return fseq(_R(a, P).inflate(iter(comps)))
+            out = fseq(_R(a, P).inflate(comps))      # the list itself is passed and changed afterwards
             comps.reverse()
             comps.append(None)
             return out
         return guarded(infl)
     if op in ("shr", "shl", "shu", "shd"):
         name = {"shr": "shift_right", "shl": "shift_left", "shu": "shift_up", "shd": "shift_down"}[op]
-        return guarded(lambda: fseq(getattr(P(pseq(a[0])), name)(int(a[1]))))
+        return guarded(lambda: fseq(getattr(_R(a, P), name)(int(a[1]))))
     if op == "issum":
-        return guarded(lambda: fbool(P(pseq(a[0])).is_sum_decomposable()))
+        return guarded(lambda: fbool(_R(a, P).is_sum_decomposable()))
     if op == "isskew":
-        return guarded(lambda: fbool(P(pseq(a[0])).is_skew_decomposable()))
+        return guarded(lambda: fbool(_R(a, P).is_skew_decomposable()))
     if op == "sumdec":
-        return guarded(lambda: _fin(P(pseq(a[0])).sum_decomposition(), fseqs))
+        return guarded(lambda: _fin(_R(a, P).sum_decomposition(), fseqs))
     if op == "skewdec":
-        return guarded(lambda: _fin(P(pseq(a[0])).skew_decomposition(), fseqs))
+        return guarded(lambda: _fin(_R(a, P).skew_decomposition(), fseqs))
     if op == "blocks":
-        return guarded(lambda: _fin(P(pseq(a[0])).block_decomposition(), fseqs))
+        return guarded(lambda: _fin(_R(a, P).block_decomposition(), fseqs))
     if op == "blockpats":
-        return guarded(lambda: _fin(P(pseq(a[0])).block_decomposition_as_pattern(), fset))
+        return guarded(lambda: _fin(_R(a, P).block_decomposition_as_pattern(), fset))
     if op == "mono":
         return guarded(lambda: _fin(getattr(P(pseq(a[1])), _KIND[a[0]])(a[2] == "T"), lambda r: fpairs(list(r))))
     if op == "contract":
         return guarded(lambda: fseq(getattr(P(pseq(a[1])), _CONTRACT[a[0]])()))
     if op == "mquot":
-        return guarded(lambda: fseq(P(pseq(a[0])).monotone_quotient()))
+        return guarded(lambda: fseq(_R(a, P).monotone_quotient()))
     if op == "maxblock":
-        return guarded(lambda: "%d.%d" % P(pseq(a[0])).maximum_block())
+        return guarded(lambda: "%d.%d" % _R(a, P).maximum_block())
     if op == "simple":
-        return guarded(lambda: fbool(P(pseq(a[0])).is_simple()))
+        return guarded(lambda: fbool(_R(a, P).is_simple()))
     if op == "ssimple":
-        return guarded(lambda: fbool(P(pseq(a[0])).is_strongly_simple()))
+        return guarded(lambda: fbool(_R(a, P).is_strongly_simple()))
     if op == "children":
-        return guarded(lambda: _fin(P(pseq(a[0])).children(), fset))
+        return guarded(lambda: _fin(_R(a, P).children(), fset))
     if op == "coveredby":
-        return guarded(lambda: _fin(P(pseq(a[0])).coveredby(), fset))
+        return guarded(lambda: _fin(_R(a, P).coveredby(), fset))
     # ---- composite operations: laws evaluated with the implementation on its own outputs
     if op == "rt_insrem":
-        return guarded(lambda: fseq(P(pseq(a[0])).insert(popt(a[1]), popt(a[2])).remove(popt(a[1]))))
+        return guarded(lambda: fseq(_R(a, P).insert(popt(a[1]), popt(a[2])).remove(popt(a[1]))))
     if op == "rt_remins":
         def f():
             p = P(pseq(a[0]))
